@@ -1,28 +1,10 @@
-use fjall::{Database, KeyspaceCreateOptions};
-fn main() -> fjall::Result<()> {
+use fjall::Database;
+fn main() {
     let dir = std::path::PathBuf::from("/dev/shm/vprobe");
     let _ = std::fs::remove_dir_all(&dir);
-    { let _db = Database::builder(&dir).worker_threads_unchecked(0).open()?; }
-    {
-        let db = Database::builder(&dir).worker_threads_unchecked(0).open()?;
-        let b = db.keyspace("b", KeyspaceCreateOptions::default)?;
-        println!("b id {} seqno {}", b.id(), db.seqno());
-        db.delete_keyspace(b)?;
-        println!("after delete seqno {}", db.seqno());
-    }
-    {
-        let db = Database::builder(&dir).worker_threads_unchecked(0).open()?;
-        println!("reopened: seqno {} names {:?}", db.seqno(), db.list_keyspace_names());
-        let a = db.keyspace("a", KeyspaceCreateOptions::default)?;
-        println!("a id {} seqno {}", a.id(), db.seqno());
-        a.insert("k", "v")?;
-        println!("a.get(k) = {:?} exists {}", a.get("k")?, db.keyspace_exists("a"));
-    }
-    {
-        let db = Database::builder(&dir).worker_threads_unchecked(0).open()?;
-        println!("reopened: names {:?} exists(a) {}", db.list_keyspace_names(), db.keyspace_exists("a"));
-        let a = db.keyspace("a", KeyspaceCreateOptions::default)?;
-        println!("a id {} get(k) = {:?}", a.id(), a.get("k")?);
-    }
-    Ok(())
+    std::fs::create_dir_all(dir.join("keyspaces")).unwrap();
+    std::fs::write(dir.join("0.jnl"), b"").unwrap();
+    std::fs::write(dir.join("lock"), b"").unwrap();
+    let r = Database::builder(&dir).worker_threads_unchecked(0).open();
+    println!("open with stale 0.jnl: {:?}", r.as_ref().map(|_| ()).map_err(|e| format!("{e:?}")));
 }
